@@ -175,7 +175,7 @@ func parse(s string) (parsed, bool) {
 	select {
 	case p := <-done:
 		return p, true
-	case <-time.After(3 * time.Second):
+	case <-time.After(6 * time.Second):
 		return parsed{}, false
 	}
 }
